@@ -10,3 +10,5 @@ require (
 )
 
 replace github.com/bradenaw/juniper => /repo
+
+replace golang.org/x/sync => /verif/.build/mc/xsync-placeholder
